@@ -216,6 +216,45 @@ func c06ViaContent(c *Ctx) {
 // firstMatchIndex: fn returns the range index of the first element of m.headers whose name the comparator matches
 // with the constant want, and def when there is none. It returns a diagnostic on mismatch.
 func (w *World) firstMatchIndex(fn *ssa.Function, want string) (bool, string) {
+	ok, why := w.firstMatchIndexSelf(fn, want)
+	if ok {
+		return true, ""
+	}
+	// or through a position finder of the same message: pos, err := m.finder(want); the position when err == nil
+	for _, cs := range w.callsIn(fn) {
+		call, isCall := cs.In.(*ssa.Call)
+		g := cs.In.Common().StaticCallee()
+		if !isCall || g == nil || !w.isMain(g) || g == fn || g.Signature.Recv() == nil || !isParam(fn, callArg(call, -1), 0) {
+			continue
+		}
+		if g.Signature.Results().Len() != 2 || errIndex(call) != 1 {
+			continue
+		}
+		arg := callArg(call, 0)
+		if s, isS := constString(arg); !(isS && s == want) && !(len(fn.Params) > 1 && isParam(fn, arg, 1)) {
+			continue
+		}
+		if gok, _ := w.firstMatchIndexSelf(g, want); !gok {
+			continue
+		}
+		good := true
+		n := 0
+		for _, r := range returnsUnder(fn, w.under(assumeAtom(errNil(call), true))) {
+			n++
+			for _, v := range valuesUnder(fn, r.Results[0], w.under(assumeAtom(errNil(call), true))) {
+				if !isResultOf(v, call, 0) {
+					good = false
+				}
+			}
+		}
+		if good && n > 0 {
+			return true, ""
+		}
+	}
+	return false, why
+}
+
+func (w *World) firstMatchIndexSelf(fn *ssa.Function, want string) (bool, string) {
 	var loop *rangeLoop
 	for _, rl := range rangeLoops(fn) {
 		if b, ok := isLoadOf(rl.Over, "Message.headers"); ok && isParam(fn, b, 0) {
